@@ -782,6 +782,10 @@ def kind_of_dict(d):
 
 @infra_guard
 def correspond(ctx):
+    # ---- A. "a run behaves identically after an engine restart or cache eviction": a running execution re-reads
+    # ITS OWN stored specification even when the definition was replaced meanwhile (stream defupdate, real engine)
+    from vlib import par
+    par.run_parallel(ctx, 'harness.defupdate_stream', 'run_chunk', [{'n_cases': ctx.n(5, 120)}] * 14)
     st = env()
     rng = ctx.rng
     limit = LIMIT_Q
@@ -1123,8 +1127,12 @@ def search(ctx):
 
 @infra_guard
 def replay(ctx, rep):
-    st = env()
     r = rep['replay']
+    if r.get('stream') == 'defupdate':
+        from harness import defupdate_stream
+        defupdate_stream.replay(ctx, rep)
+        return
+    st = env()
     if r.get('kind') == 'doc':
         verdicts, acc = run_doc(ctx, st, r['text'], r.get('origin', 'replay'), LIMIT_Q)
         print('replay: verdicts %s accepted by %s' % (verdicts, [e for e, _ in acc]))
